@@ -117,7 +117,7 @@ def inventory(repo):
             raise ValueError('crate source dir missing: ' + c)
         for d, _, fs in sorted(os.walk(root)):
             for f in sorted(fs):
-                if not f.endswith('.rs') or f == 'tests.rs':
+                if not f.endswith('.rs') or f == 'tests.rs' or f.startswith('verif_'):   # verif_*.rs: hook modules, compiled only under cfg(rsjsonnet_verif)
                     continue
                 p = os.path.join(d, f)
                 rel = os.path.relpath(p, repo)
